@@ -315,7 +315,7 @@ func c04(r *ev.Run, replay string) {
 	sel := baseSelector{max: 2048}
 	corpus.Switch(false, func() bool { return false }, func(string, bool) {}, sel.offer)
 	r.Set("variation_bases", len(c04Bases())+len(sel.bases))
-	for _, base := range append(c04Bases(), sel.bases...) {
+	for _, base := range c04Bases() {
 		if r.Expired() {
 			r.Incomplete("V1 single-field value alphabets")
 			break
@@ -325,8 +325,12 @@ func c04(r *ev.Run, replay string) {
 			c04One(r, t, what)
 		})
 	}
-	if !r.Expired() {
-		r.Completed("V1 every scalar / fixed-width byte field of one base message per kind varied alone over its value alphabet")
+	nv, complete := sel.vary(r.Seed, r.Expired, func(t *wire.N, what string) { c04One(r, t, what) })
+	fields += nv
+	if complete && !r.Expired() {
+		r.Completed(fmt.Sprintf("V1 every scalar / fixed-width byte field (match-field values and masks included) varied alone over its value alphabet: all fields of %d hand-picked base messages, and each (root kind, element kind, field) of the switch corpus in the first of %d frames that shows it", len(c04Bases()), len(sel.bases)))
+	} else {
+		r.Incomplete("V1 single-field value alphabets")
 	}
 	// two-step histories: parse A, parse B, observe A again - all ordered pairs of the base messages
 	var pairs int64
